@@ -101,6 +101,8 @@ theorem linv_stepDeqCv {s s' : State} {t : Tid} {j : Nat} {st : CvDeqSt} {e : Ev
     | exact linv_spinAcq hinv0 (fun _ => linv_deqCv hinv) (linv_deqCv hinv) h
     | (cases h; simp only [setPc_pc, setPc_fr, setObj_fr, setRec_fr, ownerRemove_fr, if_true]; exact linv_deqCv hinv)
     | exact linv_deqDone (s := (s.setObj _ _).setRec _ _) hinv.1 hinv.2.1 hinv.2.2.1 hinv.2.2.2.2 h
+    | exact linv_deqDone (s := s.setRec _ _) hinv.1 hinv.2.1 hinv.2.2.1 hinv.2.2.2.2 h
+    | (cases h; exact hinv0)
 
 theorem linv_stepDeq {s s' : State} {t : Tid} {j : Nat} {st : DeqSt} {e : Ev}
     (hpc : s.pc t = .wDeq j st) (hinv : LInv (.wDeq j st) (s.fr t))
